@@ -1207,6 +1207,10 @@ func (h *Handler) servePromQueryMetaDataWithMetricStore(w http.ResponseWriter, r
 }
 
 func (h *Handler) servePromCreateTSDB(w http.ResponseWriter, r *http.Request, user meta2.User) {
+	// creating a tsdb creates a database: same privilege as CREATE DATABASE
+	if !h.requireAdmin(w, user, "create tsdb") {
+		return
+	}
 	tsdb := mux.Vars(r)[TSDB]
 	var err error
 	if err := ValidataTSDB(tsdb); err != nil {
